@@ -39,6 +39,7 @@ impl Default for ExtensionAliasesCodecV3 {
                 // core
                 ("endian".into(), codec::BYTES), // changed to bytes after provisional acceptance
                 // zarrs 0.20
+                ("zarrs.squeeze".into(), codec::SQUEEZE),
                 ("zarrs.vlen".into(), codec::VLEN),
                 ("zarrs.vlen_v2".into(), codec::VLEN_V2),
                 ("zarrs.zfp".into(), codec::ZFP),
@@ -86,6 +87,7 @@ impl Default for ExtensionAliasesCodecV2 {
             // `name` aliases (string match)
             HashMap::from([
                 // zarrs 0.20
+                ("zarrs.squeeze".into(), codec::SQUEEZE),
                 ("zarrs.vlen".into(), codec::VLEN),
                 ("zarrs.vlen_v2".into(), codec::VLEN_V2),
                 ("zarrs.zfp".into(), codec::ZFP),
